@@ -75,6 +75,8 @@ def faults(d, rng):
     if len(U) >= 2:
         yield f"process noise keyed by the pair ({U[0].name}, {U[1].name}) instead of control {U[-1].name} (same size)", ekf_ep, lambda dd: (dd.process_noise.pop(U[-1]), dd.process_noise.__setitem__((U[0], U[1]), 0.0))
         yield "extra process noise entry keyed by a pair of declared controls", ekf_ep, lambda dd: dd.process_noise.__setitem__((U[0], U[1]), 0.25)
+    if U:
+        yield f"process noise for an undeclared symbol spelled like the control {U[0].name} instead of it (same size)", ekf_ep, lambda dd: (dd.process_noise.pop(U[0]), dd.process_noise.__setitem__(sympy.Symbol(U[0].name, **({"real": True} if U[0].is_real is None else {})) if U[0].is_real is None else sympy.Symbol(U[0].name), 1.0))
     yield "process noise for an undeclared symbol", ekf_ep, lambda dd: dd.process_noise.__setitem__(sympy.Symbol("ghost_u"), 1.0)
     yield "process noise keyed by a string", ekf_ep, lambda dd: dd.process_noise.__setitem__("not_a_symbol", 1.0)
     for sname, sm in d.sensor_models.items():
@@ -84,6 +86,8 @@ def faults(d, rng):
             if U:
                 yield f"sensor {sname}.{r} depends on control {U[0].name}", ekf_ep, lambda dd, sname=sname, r=r: dd.sensor_models[sname].__setitem__(r, dd.sensor_models[sname][r] + 3 * U[0])
             yield f"sensor {sname}.{r} depends on an undeclared symbol", ekf_ep, lambda dd, sname=sname, r=r: dd.sensor_models[sname].__setitem__(r, dd.sensor_models[sname][r] + sympy.Symbol("ghost_sym"))
+            # an undeclared symbol that merely SHARES ITS NAME with a declared state: Symbol('x', positive=True) is not Symbol('x')
+            yield f"sensor {sname}.{r} depends on an undeclared symbol spelled like the state {S[0].name}", ekf_ep, lambda dd, sname=sname, r=r: dd.sensor_models[sname].__setitem__(r, dd.sensor_models[sname][r] + 2 * sympy.Symbol(S[0].name, **({"positive": True} if S[0].is_positive is None else {})) if S[0].is_positive is None else dd.sensor_models[sname][r] + 2 * sympy.Symbol(S[0].name))
             yield f"sensor noise for reading {sname}.{r} missing", ekf_ep, lambda dd, sname=sname, r=r: dd.sensor_noises[sname].pop(r)
         yield f"sensor noise for an unknown reading of {sname}", ekf_ep, lambda dd, sname=sname: dd.sensor_noises[sname].__setitem__("ghost_reading", 1.0)
         yield f"sensor noise for an unknown reading instead of {sname}.{rn[-1]} (same size)", ekf_ep, lambda dd, sname=sname, r=rn[-1]: (dd.sensor_noises[sname].pop(r), dd.sensor_noises[sname].__setitem__("ghost_reading", 1.0))
